@@ -147,7 +147,7 @@ func genRuleSets(t *rapid.T) genCase {
 					// a condition on the first named single wildcard of the route: a value paths are filled with, or none
 					param := ""
 					if firstNamedSingle(e) != "" && rapid.IntRange(0, 2).Draw(t, "withPathParam") == 1 {
-						param = rapid.SampledFrom([]string{"a", "b", "ab", "x", "a%41", "a%41"}).Draw(t, "pathParam")
+						param = rapid.SampledFrom([]string{"a", "b", "ab", "x", "a%41", "a%41", "a%41"}).Draw(t, "pathParam")
 					}
 
 					gr.Params = append(gr.Params, param)
@@ -159,6 +159,16 @@ func genRuleSets(t *rapid.T) genCase {
 			if len(gr.Exprs) != 0 {
 				c.Rules = append(c.Rules, gr)
 			}
+		}
+	}
+
+	// now and then two rules of the first rule set share an expression of their own and differ in the condition on its
+	// wildcard only: the second one asks for a value with a percent sign in it
+	if len(c.Sources) != 0 && rapid.IntRange(0, 5).Draw(t, "rulesSharingAnExpressionWithConditions") == 0 {
+		shared := vkit.Expr{{Kind: vkit.Lit, Lit: "pp"}, {Kind: vkit.Single, Name: "v"}}
+
+		for i, want := range []string{rapid.SampledFrom([]string{"a", "b", "a%2541"}).Draw(t, "firstCondition"), "a%41"} {
+			c.Rules = append(c.Rules, genRule{ID: fmt.Sprintf("pp%d", i), Src: c.Sources[0], Exprs: []vkit.Expr{shared}, Params: []string{want}})
 		}
 	}
 
@@ -422,6 +432,36 @@ func TestRepositoryMatchesModel(t *testing.T) {
 			method := rapid.SampledFrom([]string{"GET", "POST"}).Draw(t, "method")
 			routes, exprs := refRoutes(c, flags, method)
 			path := vkit.GenPath(t, exprs, "path")
+
+			// now and then a path made for a route whose condition asks for a value with a percent sign in it: the wildcard the
+			// condition is about holds that value (sent with the percent sign encoded), the other ones something plain
+			if rapid.IntRange(0, 3).Draw(t, "pathForPercentCondition") == 0 {
+				for _, r := range c.Rules {
+					for k, e := range r.Exprs {
+						if r.Params[k] != "a%41" {
+							continue
+						}
+
+						var sb strings.Builder
+
+						for _, seg := range e {
+							sb.WriteByte('/')
+
+							switch {
+							case seg.Kind == vkit.Lit:
+								sb.WriteString(seg.Lit)
+							case seg.Name == firstNamedSingle(e):
+								sb.WriteString("a%2541")
+							default:
+								sb.WriteString("a")
+							}
+						}
+
+						path = sb.String()
+						vkit.S.Label("path_made_for_a_condition_on_a_value_with_a_percent_sign")
+					}
+				}
+			}
 
 			want, _, ok, inspected, backtracked := vkit.RefFind(routes, path)
 			if !ok {
